@@ -414,6 +414,9 @@ func (cx *Checker) specOf(o *core.Obl) *ReplaySpec {
 	return &spec
 }
 
+var concreteReplay = map[string]bool{"wf": true, "boundary-compile": true, "boundary-run": true, "compile-calls": true, "directive=options": true,
+	"ev-dump": true, "redump-compiles": true, "redump-text": true}
+
 // ReplayAll replays every refuted obligation that has a model, in batches.
 func (cx *Checker) ReplayAll(obls []*core.Obl) {
 	var specs []*ReplaySpec
@@ -422,15 +425,19 @@ func (cx *Checker) ReplayAll(obls []*core.Obl) {
 		if o.Status != core.Refuted || o.ReplayKind != "bounded" || o.Replay != nil {
 			continue
 		}
-		if o.Query == "" { // concrete obligation (driver): the witness is the source itself
-			continue
-		}
 		spec := cx.specOf(o)
 		if spec == nil {
 			continue
 		}
 		spec.ID = len(specs)
-		o.Witness = spec.Witness()
+		if o.Query == "" {
+			// concrete obligation (driver): the witness is the source itself; the replay re-runs the real code on it
+			if !concreteReplay[spec.Rel] {
+				continue
+			}
+		} else {
+			o.Witness = spec.Witness()
+		}
 		b, _ := json.Marshal(spec)
 		o.ReplayData["spec"] = string(b)
 		o.ReplayData["values"] = strings.Join(cx.values[o.Name], "\n")
@@ -462,8 +469,8 @@ func (cx *Checker) ReplayAll(obls []*core.Obl) {
 			o.Replay = &core.ReplayResult{Confirmed: r.Confirmed, Cmd: cmdline,
 				Output:   fmt.Sprintf("real: %s | specification: %s | %s", r.Got, r.Want, r.Detail),
 				TestFile: filepath.Join(dir, "replay_test.go.txt")}
-			if r.Confirmed {
-				o.Witness += fmt.Sprintf(" => real %s, specification %s", r.Got, r.Want)
+			if r.Confirmed && o.Query != "" {
+				o.Witness += fmt.Sprintf(" => real %s, specification %s", trunc(r.Got, 300), trunc(r.Want, 300))
 			}
 		}
 	}
